@@ -96,7 +96,7 @@ func (d *Driver) collectOverlay() error {
 		base := filepath.Base(p)
 		dir := filepath.Dir(rel)
 		take := false
-		if dir == "internal/verifnd" {
+		if dir == "internal/verifnd" || dir == "internal/verifstub" {
 			take = true
 		} else if strings.HasPrefix(base, "zz_verif_"+pl+"_") || strings.HasPrefix(base, "zz_verif_"+pl+".") {
 			take = true
